@@ -116,7 +116,11 @@ func (x *E2Exec) Stuck() []string {
 }
 
 // Panics lists panics raised inside thread bodies.
-func (x *E2Exec) Panics() []string { x.mu.Lock(); defer x.mu.Unlock(); return append([]string{}, x.panics...) }
+func (x *E2Exec) Panics() []string {
+	x.mu.Lock()
+	defer x.mu.Unlock()
+	return append([]string{}, x.panics...)
+}
 
 // Choices returns the choice sequence of the execution.
 func (x *E2Exec) Choices() []int {
